@@ -31,6 +31,142 @@ func C11(c *core.Ctx) {
 		return strings.HasPrefix(k, "R3.2:table:ReadTLNum")
 	})
 
+	// ---- R11.7 a block is written to the stream as a whole: every Write on the stream face's
+	// connection is made with the face's send lock held — a block that consists of several
+	// buffers is written piece by piece, and a Write that does not take the lock can land
+	// between two pieces of another sender's block
+	{
+		pkgF := core.ModPath + "/std/engine/face"
+		_, held := core.EntryLocks(p, pkgF)
+		nW := 0
+		for _, fn := range p.FuncsIn(pkgF) {
+			if strings.HasSuffix(p.File(fn.Pos()), "_test.go") || core.FuncID(core.RootOf(fn)).Recv != "StreamFace" {
+				continue
+			}
+			core.Instrs(fn, func(in ssa.Instruction) {
+				ci, ok := in.(ssa.CallInstruction)
+				if !ok || !ci.Common().IsInvoke() || ci.Common().Method.Name() != "Write" {
+					return
+				}
+				if _, path := core.FieldPath(ci.Common().Value); len(path) == 0 || path[len(path)-1] != "conn" {
+					return
+				}
+				nW++
+				c.Funcs[core.FuncName(fn)] = true
+				locked := false
+				for k := range held[fn][in] {
+					if strings.HasPrefix(k, "W:") && strings.Contains(k, "StreamFace.") {
+						locked = true
+					}
+				}
+				c.Decide(locked, "R11.7", fmt.Sprintf("stream-write-under-send-lock:%s#%d", core.FuncName(fn), nW), c.Pos(in), "the connection is written with the send lock held", core.FuncName(fn)+" writes to the stream connection without holding the face's send lock: with two concurrent senders the bytes land between the buffers of the other sender's block — the receiver sees one block split and another merged into it")
+			})
+		}
+		c.Floor("R11.7", "writes to the stream face's connection", nW, 1)
+	}
+	// ---- R11.9 a read() that ends inside a type or length number is an incomplete block, not
+	// an error: where a de-framer tells "bytes are missing" from other failures by comparing
+	// the error of ReadTLNum with the io sentinels by identity (== / !=), ReadTLNum returns
+	// those sentinels themselves — never an error constructed around them (fmt.Errorf("%w"))
+	{
+		rt := c.Fn("R11.9", "std/encoding", "", "ReadTLNum")
+		var identityCmp ssa.Instruction
+		nCmp := 0
+		for _, pkg := range []string{"fw/face", "std/engine/face"} {
+			for _, fn := range p.FuncsIn(core.ModPath + "/" + pkg) {
+				if strings.HasSuffix(p.File(fn.Pos()), "_test.go") {
+					continue
+				}
+				core.Instrs(fn, func(in ssa.Instruction) {
+					bo, ok := in.(*ssa.BinOp)
+					if !ok || (bo.Op != token.EQL && bo.Op != token.NEQ) {
+						return
+					}
+					fromRead := func(v ssa.Value) bool {
+						found := false
+						var walk func(v ssa.Value, n int)
+						walk = func(v ssa.Value, n int) {
+							if n > 4 || found {
+								return
+							}
+							switch y := core.Strip(v).(type) {
+							case *ssa.Extract:
+								if y.Index == 1 && isCallTo(y.Tuple, core.CalleeID{Pkg: "std/encoding", Name: "ReadTLNum"}) {
+									found = true
+								}
+							case *ssa.Phi:
+								for _, e := range y.Edges {
+									walk(e, n+1)
+								}
+							}
+						}
+						walk(v, 0)
+						return found
+					}
+					isSentinel := func(v ssa.Value) bool {
+						u, ok := core.Strip(v).(*ssa.UnOp)
+						if !ok {
+							return false
+						}
+						g, ok := u.X.(*ssa.Global)
+						return ok && g.Pkg != nil && g.Pkg.Pkg.Path() == "io"
+					}
+					if (fromRead(bo.X) && isSentinel(bo.Y)) || (fromRead(bo.Y) && isSentinel(bo.X)) {
+						nCmp++
+						identityCmp = in
+					}
+				})
+			}
+		}
+		if rt != nil {
+			constructed := ""
+			core.Instrs(rt, func(in ssa.Instruction) {
+				r, ok := in.(*ssa.Return)
+				if !ok || len(r.Results) != 2 {
+					return
+				}
+				seen := map[ssa.Value]bool{}
+				var walk func(v ssa.Value)
+				walk = func(v ssa.Value) {
+					v = core.Strip(v)
+					if seen[v] {
+						return
+					}
+					seen[v] = true
+					switch y := v.(type) {
+					case *ssa.Phi:
+						for _, e := range y.Edges {
+							walk(e)
+						}
+					case *ssa.UnOp: // a named result / a global
+						if al, isAl := y.X.(*ssa.Alloc); isAl {
+							for _, ref := range core.Refs(al) {
+								if st, isSt := ref.(*ssa.Store); isSt && st.Addr == ssa.Value(al) {
+									walk(st.Val)
+								}
+							}
+						}
+					case *ssa.Call:
+						if id, okID := core.Callee(&y.Call); okID && (id.Pkg == "fmt" || id.Pkg == "errors") {
+							constructed = c.Pos(y)
+						}
+					case *ssa.MakeInterface:
+						if _, isCall := y.X.(*ssa.Call); !isCall {
+							constructed = c.Pos(y)
+						}
+					}
+				}
+				walk(r.Results[1])
+			})
+			c.Decide(nCmp == 0 || constructed == "", "R11.9", "incomplete-number-is-not-an-error", p.Pos(rt.Pos()), fmt.Sprintf("%d identity comparisons of ReadTLNum's error with io sentinels; ReadTLNum returns sentinels unwrapped", nCmp), "a de-framer compares the error of ReadTLNum with the io sentinels by identity ("+c.Pos(identityCmp)+") while ReadTLNum returns an error constructed around the sentinel ("+constructed+"): a read() that ends inside a 3- or 5-octet type or length number is taken for a broken stream, the face is torn down and every later block is lost")
+		}
+	}
+	// ---- R11.8 (shared with C10 R10.3) the stream transports of the forwarder drop only
+	// frames LONGER than their limit: a block of exactly the maximum packet size is a legal block
+	c.Import(C10, "R11.8", "a stream transport of the forwarder refuses a frame that is not longer than its limit (or writes one that is): a block of exactly the maximum size is lost", 2, func(k string) bool {
+		return strings.HasPrefix(k, "R10.3:transport-mtu-gate:UnixStreamTransport") || strings.HasPrefix(k, "R10.3:transport-mtu-gate:UnicastTCPTransport")
+	})
+
 	// ---- R11.3 frame ownership
 	ls := p.Named("fw/face", "LinkService")
 	nImpl := 0
